@@ -62,6 +62,11 @@ Theorem c08_stop_window : forall c s l s' os, reach c s -> step s l = Some (s', 
 Proof. exact stop_window. Qed.
 Print Assumptions c08_stop_window.
 
+Theorem c08_stop_cause_spec : forall s l k,
+  stop_cause s l k <-> (exists n, l = LRelStop n /\ k = SCStop) \/ (l = LRelRead /\ rd s = RHold (FErr k)).
+Proof. exact stop_cause_spec. Qed.
+Print Assumptions c08_stop_cause_spec.
+
 Theorem c08_first_cause_wins : forall c s l s' os e, reach c s -> step s l = Some (s', os) ->
   stop_err s = Some e -> l <> LStart -> stop_err s' = Some e /\ running s' = false.
 Proof. exact first_cause_wins. Qed.
